@@ -236,6 +236,29 @@ func checkC09(w *World, r *Run) {
 		})
 		r.Check(ok && n > 0, ruleAll, "NewNamedPartStores registers every extra store", fn.Pos(), "unconditional insert per configured store", "a configured store is not entered into the store map: GC never sweeps it and ByName cannot resolve its parts")
 	}
+	// GC learns about stored parts through GetPartIds: a store built from several stores must
+	// list the parts of all of them, or leftovers in the others are never swept
+	if fn := w.SSAFunc(relErasure, "erasureCodingPartStore.GetPartIds"); fn == nil {
+		r.Anchor(ruleAll, "erasureCodingPartStore.GetPartIds")
+	} else {
+		over := false
+		allInstrs(fn, false, func(_ *ssa.Function, ins ssa.Instruction) {
+			c, ok := ins.(ssa.CallInstruction)
+			if !ok || !c.Common().IsInvoke() || c.Common().Method.Name() != "GetPartIds" {
+				return
+			}
+			if ld, ok := c.Common().Value.(*ssa.UnOp); ok {
+				if ia, ok := ld.X.(*ssa.IndexAddr); ok {
+					if n, _ := fieldLoadName(ia.X); n == "partStores" {
+						if _, isConst := ia.Index.(*ssa.Const); !isConst {
+							over = true
+						}
+					}
+				}
+			}
+		})
+		r.Check(over, ruleAll, "erasure-coding GetPartIds lists every shard store", fn.Pos(), "loop over all of partStores", "only some shard stores are listed: shards left behind in the others by a partially applied write or delete are invisible to the collector and never reclaimed")
+	}
 	r.NotCovered("'eventually': that the GC loop runs, that GetPartIds of every store implementation enumerates all stored ids, crash leftovers (temp files), and the timing of the grace window; the rules decide that nothing on the success paths drops an unreferenced part from the clean-up chain")
 }
 
@@ -361,7 +384,9 @@ func checkC09GC(w *World, r *Run, rule, ruleRecon string) {
 				if f.Kind == IsFalse {
 					if c, i := extractOf(f.Val); c == condemn && i == 0 {
 						first := b.Succs[k].Instrs[0]
-						loopHead := func(i ssa.Instruction) bool { return strings.Contains(i.Block().Comment, "rangeindex.loop") || strings.Contains(i.Block().Comment, "rangeiter.loop") || strings.Contains(i.Block().Comment, "for.loop") || strings.Contains(i.Block().Comment, "for.post") }
+						loopHead := func(i ssa.Instruction) bool {
+							return strings.Contains(i.Block().Comment, "rangeindex.loop") || strings.Contains(i.Block().Comment, "rangeiter.loop") || strings.Contains(i.Block().Comment, "for.loop") || strings.Contains(i.Block().Comment, "for.post")
+						}
 						isRet := func(i ssa.Instruction) bool { _, ok := i.(*ssa.Return); return ok }
 						if isRet(first) {
 							refusedEnds = w.Pos(posOf(first))
